@@ -105,18 +105,45 @@ def export_import(state, vars_):
 
 
 def tags_of(state):
-    """characterisation of the INPUT state (not a verdict): variables of one name at several types"""
-    seen = {}
-    for it in flat(state.prf):
-        if it.th is not None:
-            for t in list(it.th.hyps) + [it.th.prop]:
-                for v in t.get_vars():
-                    seen.setdefault(v.name, set()).add(json.dumps(encT(v.T)))
-        if it.rule == "variable" and it.args:
-            seen.setdefault(it.args[0], set()).add(json.dumps(encT(it.args[1])))
+    """characterisation of the INPUT state (not a verdict): two variables of one name at different types that are visible
+    TOGETHER - in one sequent, or a variable line / a sequent against the variables declared in the enclosing scopes (theorem
+    variables, earlier `variable` lines of the enclosing levels).  Sibling scopes that bind one name at different types do
+    not see each other: every printed line stays unambiguous, such states are not tagged."""
+    clash = [False]
+
+    def tk(T):
+        return json.dumps(encT(T))
+
+    def walk(prf, scope):
+        scope = dict(scope)                       # a block's declarations do not leak out of it
+        for it in prf.items:
+            if it.rule == "variable" and it.args:
+                nm, T = it.args[0], tk(it.args[1])
+                if scope.setdefault(nm, T) != T:
+                    clash[0] = True
+            if it.th is not None:
+                local = {}
+                for t in list(it.th.hyps) + [it.th.prop]:
+                    for v in t.get_vars():
+                        T = tk(v.T)
+                        if local.setdefault(v.name, T) != T or scope.get(v.name, T) != T:
+                            clash[0] = True
+            if it.subproof:
+                walk(it.subproof, scope)
+
+    top = {}
     for v in state.vars:
-        seen.setdefault(v.name, set()).add(json.dumps(encT(v.T)))
-    return ["same-name-variables-at-different-types"] if any(len(ts) > 1 for ts in seen.values()) else []
+        if top.setdefault(v.name, tk(v.T)) != tk(v.T):
+            clash[0] = True
+    walk(state.prf, top)
+    return ["same-name-variables-at-different-types"] if clash[0] else []
+
+
+def sibling_binders(state):
+    """characterisation: `variable` lines of one name at different types in scopes that do not see each other"""
+    decl = [(it.id, it.args[0], json.dumps(encT(it.args[1]))) for it in flat(state.prf) if it.rule == "variable" and it.args]
+    return any(n1 == n2 and t1 != t2 and not i1.can_depend_on(i2) and not i2.can_depend_on(i1)
+               for (i1, n1, t1) in decl for (i2, n2, t2) in decl)
 
 
 class Out:
@@ -147,11 +174,14 @@ def thm_iter(theories, rnd, n_per):
 
 
 def full_lines(state):
-    """projection used for copy isolation: ids, rules, citations, interned sequents AND printed arguments"""
+    """projection used for copy isolation: ids, rules, citations, interned sequents AND printed arguments (same shape always)"""
     try:
-        return [lines_of(state), export_lines(state)[0]]
+        return {"lines": lines_of(state), "exp_ok": True, "exp": export_lines(state)[0], "exp_err": ""}
     except Exception as e:
-        return [lines_of(state), ["export failed: " + type(e).__name__]]
+        return {"lines": lines_of(state), "exp_ok": False, "exp": [], "exp_err": type(e).__name__}
+
+
+NO_COPY = {"lines": [], "exp_ok": True, "exp": [], "exp_err": ""}
 
 
 def apply_on_copy(state, step):
@@ -165,17 +195,19 @@ def apply_on_copy(state, step):
         return None, before, full_lines(state), e
 
 
-def edit_event(out, thname, item, goal, state, idx, route, step, copy_info):
+def edit_event(out, thname, item, goal, state, idx, route, step, copy_info, extra=None):
     ev = {"kind": "edit", "thm": "%s.%s" % (thname, item.name), "step": idx, "route": route, "method": step.get("method_name", "init"),
           "lines": lines_of(state), "goal": goal, "sorries": sorries(state), "recheck": recheck(state)[:3]}
     ev["nogaps"] = [True] + recheck(state, no_gaps=True)[:3:2] if not ev["sorries"] else [False, False, -1]
     xi = export_import(state, item.vars)
     ev["expimp"] = xi[:5]
     ev["expimp_err"] = xi[5]
-    ev["copy"] = [True, copy_info[0], copy_info[1]] if copy_info else [False, [], []]
+    ev["copy"] = [True, copy_info[0], copy_info[1]] if copy_info else [False, NO_COPY, NO_COPY]
     ev["tags"] = tags_of(state)
     ev["params"] = {k: str(v) for k, v in step.items() if k not in ("method_name",)}
     ev["key"] = "%s#%d:%s:%s" % (ev["thm"], idx, route, ev["method"])
+    if extra:
+        ev.update(extra)
     context.set_context(None, vars=item.vars)
     out.emit(ev)
 
@@ -197,6 +229,15 @@ def perturb_steps(state, rnd):
             st["goal_id"], st["fact_ids"] = gid, r.get("fact_ids", fsel)
             if st.get("method_name") in ("exists_elim", "introduction") and "names" not in st:
                 st["names"] = "w%d, w%d" % (rnd.randint(0, 3), rnd.randint(4, 7))
+            if st.get("method_name") == "forall_elim" and "s" not in st:
+                # instantiate with a visible variable of the bound variable's type
+                try:
+                    T = state.get_proof_item(ItemID(st["fact_ids"][0])).th.prop.arg.var_T
+                    pool = sorted(nm for nm, T2 in state.get_vars(gid).items() if T2 == T)
+                    if pool:
+                        st["s"] = rnd.choice(pool)
+                except Exception:
+                    pass
             cands.append(st)
     except Exception:
         pass
@@ -218,6 +259,25 @@ def perturb_steps(state, rnd):
     return cands[:3]
 
 
+def random_walks(out, thname, item, goal, state, idx, rnd, nwalks, maxdepth, extra=None):
+    """seeded random walks from `state`: each operation is applied on a copy of the state before it and emits an event"""
+    n = 0
+    for w, first in enumerate(perturb_steps(state, rnd)[:nwalks]):
+        cur = state
+        for d in range(1, rnd.randint(1, maxdepth) + 1):
+            moved = False
+            for pst in ([first] if d == 1 else perturb_steps(cur, rnd)):
+                context.set_context(None, vars=item.vars)
+                trial, before, after, err = apply_on_copy(cur, pst)
+                if trial is not None:
+                    edit_event(out, thname, item, goal, trial, idx, "walk%d.%d" % (w, d), pst, (before, after), extra)
+                    cur, moved, n = trial, True, n + 1
+                    break
+            if not moved:
+                break
+    return n
+
+
 def run_edit(out, theories, rnd, n_per):
     for thname, item in thm_iter(theories, rnd, n_per):
         try:
@@ -230,19 +290,10 @@ def run_edit(out, theories, rnd, n_per):
         snapshots = [copy.copy(state)]
         for idx, step in enumerate(item.steps, 1):
             context.set_context(None, vars=item.vars)
-            # seeded perturbation from the current state, on a copy (its continuation is dropped)
+            # seeded perturbation from the current state: random walks of up to 4 operations, each on a copy of the state
+            # before it, each emitting an event (the walk is dropped afterwards)
             if rnd.random() < 0.35:
-                for pst in perturb_steps(state, rnd):
-                    context.set_context(None, vars=item.vars)
-                    trial, before, after, err = apply_on_copy(state, pst)
-                    if trial is not None:
-                        edit_event(out, thname, item, goal, trial, idx, "perturb", pst, (before, after))
-                        # a second operation on the perturbed state
-                        for pst2 in perturb_steps(trial, rnd)[:1]:
-                            context.set_context(None, vars=item.vars)
-                            t2, b2, a2, err2 = apply_on_copy(trial, pst2)
-                            if t2 is not None:
-                                edit_event(out, thname, item, goal, t2, idx, "perturb2", pst2, (b2, a2))
+                random_walks(out, thname, item, goal, state, idx, rnd, nwalks=2, maxdepth=4)
             context.set_context(None, vars=item.vars)
             if rnd.random() < 0.5:
                 trial, before, after, err = apply_on_copy(state, step)
